@@ -117,9 +117,9 @@ Definition op_tok (s : string) : token :=
 Inductive pos :=
 | PTop                                             (* parent is not an Operation *)
 | PUn (u : unop)                                   (* operand of a UnaryOperation *)
-| PBinL (o : binop) (sib : expr) (g : option binop)
-    (* children[0] of a BinaryOperation o whose children[1] is sib; g = Some go when that
-       BinaryOperation is itself children[1] of a BinaryOperation go *)
+| PBinL (o : binop) (sib : expr) (g : bool)
+    (* children[0] of a BinaryOperation o whose children[1] is sib; g: a sign written at the very
+       left of that BinaryOperation would directly follow a binary operator (see gleft) *)
 | PBinR (o : binop).                               (* children[1] of a BinaryOperation o *)
 
 (* binaryoperation_node: brackets iff lower precedence than the parent operation, or equal
@@ -147,10 +147,18 @@ Definition un_paren (R : rules) (u : unop) (p : pos) : bool :=
   | PBinL po _ g =>
       (String.eqb (bin_str po) "**" && String.eqb (un_str u) "-")
       || (r_un_left R && (prec_un u <? prec_bin po))
-      || match g with
-         | Some go => (prec_bin go <? prec_bin po) && String.eqb (un_str u) "-"
-         | None => false
-         end
+      || (g && (String.eqb (un_str u) "-" || (r_plus R && String.eqb (un_str u) "+")))
+  end.
+
+(* the flag handed to the left operand of a BinaryOperation o at position p.
+   Unchanged code: o is children[1] of a BinaryOperation po of lower precedence (so o is not
+   bracketed).  r_deep: also when o is an unbracketed-looking left operand (precedence not below
+   its parent's) of an operation that has the flag. *)
+Definition gleft (R : rules) (p : pos) (o : binop) : bool :=
+  match p with
+  | PBinR po => prec_bin po <? prec_bin o
+  | PBinL po _ g => r_deep R && g && (prec_bin po <=? prec_bin o)
+  | _ => false
   end.
 
 Definition tk (t : token) (s : string) : option token * string := (Some t, s).
@@ -192,9 +200,8 @@ Fixpoint wrd (R : rules) (p : pos) (e : expr) {struct e} : doc :=
   | Un u x =>
       parens (un_paren R u p) (tk (op_tok (un_str u)) (un_str u) :: wrd R (PUn u) x)
   | Bin o l r =>
-      let g := match p with PBinR po => Some po | _ => None end in
       parens (bin_paren R o p e)
-             (wrd R (PBinL o r g) l ++ sp :: tk (op_tok (bin_str o)) (bin_str o) :: sp ::
+             (wrd R (PBinL o r (gleft R p o)) l ++ sp :: tk (op_tok (bin_str o)) (bin_str o) :: sp ::
               wrd R (PBinR o) r)
   end.
 
@@ -443,7 +450,7 @@ Fixpoint ok (R : rules) (m : nat) (p : pos) (e : expr) {struct e} : bool :=
       (m' <=? pre_max u) && ok R (pre_rbp u) (PUn u) x
   | Bin o l r =>
       let m' := if bin_paren R o p e then 0 else m in
-      let g := match p with PBinR po => Some po | _ => None end in
+      let g := gleft R p o in
       (m' <=? lvl o) &&
       ok R m' (PBinL o r g) l &&
       (lvl o <? theta R (PBinL o r g) l) && (lvl o <=? after R (PBinL o r g) l) &&
